@@ -63,6 +63,50 @@ def generate(prop, nk, flag, origins, modes):
     return cases, states, trans
 
 
+def write_results_part(prop, tier, seed, sc):
+    """C01, the writes that pass the gate of DeviceLocal.ProcessCmd (function writable, binding present) and are then decided by
+    the data layer: every (stored list, remote update) case of the flagged one-key signature is sent as a write datagram of a
+    bound peer to a real server feature, two in three asking for an acknowledgement; the result datagram (error result for a
+    rejected write whether or not an acknowledgement was requested, success result only on request) and the stored data are
+    validated by ListTrace against the remote-write contract.  Returns {"viol", "cov"}."""
+    quick = tier == "quick"
+    known = open_deviations("C04")      # the listed deviations of the data layer are followed here, they are C04's findings
+    cases, st, tr = generate(prop, 1, True, {"remote"}, [("cases", 1, True)])
+    rnd = random.Random(seed)
+    cases = rnd.sample(cases, min(len(cases), 4000 if quick else len(cases)))
+    work = []
+    for i, sh in enumerate(shard(cases, NCPU)):
+        bf, tf = sc.path("wr%d.in" % i), sc.path("wr%d.trace" % i)
+        open(bf, "w").write("\n".join(sh) + "\n")
+        work.append((bf, tf))
+    stats = pmap(lambda w: json.loads(run_harness(["list-e2e", "-type", "limit", "-in", w[0], "-out", w[1]])), work)
+    cfg = cfg_text("TraceSpec", {"KnownDeviations": set(known.keys()), "HasFlag": True, "Checked": {"c04"}}, invariants=["Final"], postcondition="Done")
+
+    def val(w):
+        code, out = run_tlc("ListTrace.tla", cfg, timeout=3000, workers=1, heap="3g", env={"VERIF_TRACE": w[1]}, light=True)
+        if not tlc_ok(code, out):
+            raise Inconclusive("write result validation failed on %s:\n%s" % (w[1], out[-2500:]))
+        return printed(out, "BAD")[0], printed(out, "LINES")[0]
+    viol, seen, lines = 0, set(), 0
+    for w, (bad, n) in zip(work, pmap(val, work)):
+        lines += n
+        tl = None
+        for b in bad:
+            tl = tl or open(w[1]).read().splitlines()
+            e = json.loads(tl[b["line"] - 1])
+            key = (e["u"]["partial"], e["u"]["delete"], b["why"], e["panic"])
+            if key in seen:
+                continue
+            seen.add(key)
+            viol += 1
+            path = write_replay(prop, "writeresult_%d" % viol, {"property": prop, "how": "list-e2e write results", "type": "limit", "case": {"init": e["pre"], "ups": [e["u"]]},
+                                                                 "observed": {"ok": e["ok"], "store": e["store"], "panic": e["panic"]}, "why": b["why"]})
+            print("VIOLATION property=%s replay=%s" % (prop, path))
+            print("  write to a bound server feature: list %s, update %s -> accepted=%s %s: %s" % (json.dumps(e["pre"]), json.dumps(e["u"]), e["ok"], e["panic"], b["why"]))
+    log("[%s] write results through the data layer: %d writes, %d lines validated, %d violation classes" % (prop, sum(s["steps"] for s in stats), lines, viol))
+    return {"viol": viol, "cov": {"writes": sum(s["steps"] for s in stats), "trace_lines": lines, "states": st, "cases": len(cases), "bad": viol}}
+
+
 def run(prop, tier, seed, replay=None):
     t0 = time.time()
     build_harness()
